@@ -3,6 +3,7 @@ package valid
 import (
 	"errors"
 	"reflect"
+	"sort"
 	"strings"
 )
 
@@ -151,6 +152,30 @@ func (v *validCommon) valid(errBuf *strings.Builder) {
 			v.either(errBuf, fieldInfos)
 		case BothEq:
 			v.bothEq(errBuf, fieldInfos)
+		}
+	}
+}
+
+// requiredOfMissing 对规则里有而输入(map/url)里没有的 key 进行必填验证
+func requiredOfMissing(errBuf *strings.Builder, ruleObj RM, isExist func(key string) bool, getName func(key string) string) {
+	keys := make([]string, 0, len(ruleObj))
+	for key := range ruleObj {
+		if key != "" && !isExist(key) {
+			keys = append(keys, key)
+		}
+	}
+	sort.Strings(keys) // 保证输出顺序固定
+	for _, key := range keys {
+		for _, validName := range ValidNamesSplit(ruleObj[key]) {
+			validKey, _, cusMsg := ParseValidNameKV(validName)
+			if validKey != Required {
+				continue
+			}
+			if cusMsg != "" {
+				errBuf.WriteString(GetJoinValidErrStr("", getName(key), "", cusMsg))
+				continue
+			}
+			errBuf.WriteString(GetJoinValidErrStr("", getName(key), "", ExplainEn, "it is", Required))
 		}
 	}
 }
